@@ -687,6 +687,17 @@ func localRemote(fine bool) func() {
 		if localErr == nil {
 			svc.Terminate()
 			vrt.Quiesce()
+			// the local termination is an unregistration like any other:
+			// its serviceRemoved event is emitted exactly once
+			nRemoved := 0
+			for _, e := range ev.got {
+				if e == fmt.Sprintf("removed(%d,%s)", localID, localName) {
+					nRemoved++
+				}
+			}
+			if nRemoved != 1 {
+				vrt.Failf("events-differ/removed-local", "the hosting server terminated its service %s (%d): %d serviceRemoved events for it, events %v", localName, localID, nRemoved, ev.got)
+			}
 			l2, _ := p2.Services()
 			for _, i := range l2 {
 				if i.ServiceId == localID {
